@@ -47,6 +47,7 @@ func NewServer() *Server {
 		analyzer: analyzer.New(),
 		loader:   include.NewLoader(),
 	}
+	srv.loader.SetOpenContent(srv.openContent)
 	defaults := defaultServerSettings()
 	srv.cliClient = cli.NewClient(defaults.CLI.Path, defaults.CLI.Timeout)
 	srv.setSettings(defaults)
@@ -190,6 +191,12 @@ func (s *Server) DidOpen(ctx context.Context, params *protocol.DidOpenTextDocume
 			s.workspace.UpdateFile(path, params.TextDocument.Text)
 		}
 		s.loader.InvalidateFile(path)
+		// the documents that include this file follow its include lines as they
+		// stand in the editor, which need not be those of the saved file
+		saved, _ := os.ReadFile(path)
+		if includeLines(string(saved)) != includeLines(params.TextDocument.Text) {
+			s.reanalyseIncluders(ctx, path, params.TextDocument.URI)
+		}
 	}
 	go s.publishDiagnosticsVersion(ctx, params.TextDocument.URI, params.TextDocument.Text, version)
 	return nil
@@ -222,6 +229,11 @@ func (s *Server) DidChange(ctx context.Context, params *protocol.DidChangeTextDo
 			}
 			// the loader's cache is used with and without a workspace
 			s.loader.InvalidateFile(path)
+			// the include trees of the documents that include this file follow its
+			// include lines as they stand in the editor
+			if previous, _ := doc.(string); includeLines(previous) != includeLines(content) {
+				s.reanalyseIncluders(ctx, path, params.TextDocument.URI)
+			}
 		}
 		go s.publishDiagnosticsVersion(ctx, params.TextDocument.URI, content, version)
 	}
@@ -280,6 +292,10 @@ func (s *Server) reanalyseIncluders(ctx context.Context, path string, except pro
 		}
 		s.docMu.Lock()
 		content, open := s.GetDocument(docURI)
+		if _, recorded := s.resolved.Load(docURI); !recorded && !hasIncludeLine(content) {
+			// still being analysed, but a text without include lines includes nothing
+			open = false
+		}
 		var version uint64
 		if open {
 			s.resolved.Delete(docURI)
@@ -308,6 +324,25 @@ func (s *Server) DidSave(ctx context.Context, params *protocol.DidSaveTextDocume
 		s.reanalyseIncluders(ctx, path, params.TextDocument.URI)
 	}
 	return nil
+}
+
+// hasIncludeLine reports whether some line of the text starts with the include keyword.
+func hasIncludeLine(content string) bool {
+	return strings.HasPrefix(content, "include") || strings.Contains(content, "\ninclude")
+}
+
+// includeLines returns the lines of the text that start with the include keyword.
+func includeLines(content string) string {
+	if !hasIncludeLine(content) {
+		return ""
+	}
+	var lines []string
+	for _, line := range strings.Split(content, "\n") {
+		if strings.HasPrefix(line, "include") {
+			lines = append(lines, strings.TrimRight(line, "\r"))
+		}
+	}
+	return strings.Join(lines, "\n")
 }
 
 // dropPayeeTemplates forgets the posting templates cached for the document and
